@@ -18,6 +18,28 @@ STUBS_DOC = [
 ]
 
 
+def intercepts(name):
+    """Functions that are modelled by the engine even when the module defines them (whole-program LTO modules contain
+    the allocator shim, the panic runtime and the TLS registration; their bodies end in libc / unwinder calls)."""
+    if name.endswith(('___rust_alloc', '___rust_alloc_zeroed', '___rust_dealloc', '___rust_realloc', '___rust_no_alloc_shim_is_unstable_v2')):
+        return True
+    if 'panicking' in name and ('4core9panicking' in name or '3std9panicking' in name):
+        d = demangle(name)
+        for k in ('panic_fmt', 'panic_nounwind', 'panic_cannot_unwind', 'panic_in_cleanup', 'panic_bounds_check', 'panic_const', 'panicking::panic',
+                  'panic_misaligned', 'panic_null_pointer', 'begin_panic', 'rust_panic', 'catch_unwind7cleanup', 'catch_unwind::cleanup', 'assert_failed',
+                  'panic_display', 'panic_str', 'panic_explicit', 'unreachable_display', 'panic_invalid_enum'):
+            if k in d or k in name:
+                return True
+    if name.endswith(('handle_alloc_error', '3std7process5abort', 'destructors10linux_like8register', '11destructors8register')):
+        return True
+    if name.endswith(('slice_index_fail', 'slice_start_index_len_fail', 'slice_end_index_len_fail', 'unwrap_failed', 'expect_failed',
+                      'panic_already_borrowed', 'panic_already_mutably_borrowed', 'capacity_overflow', 'panic_access_error', 'len_mismatch_fail')):
+        return True
+    if 'raw_vec12handle_error' in name:
+        return True
+    return False
+
+
 def _bv(x, w):
     return x if is_sym(x) else z3.BitVecVal(x, w)
 
@@ -170,9 +192,12 @@ def call(e, st, fr, name, av, ins):
         st.events.append(('panic', short(name)))
         st.unw = ('aggv', [Ptr(None, 0xdead0), 0])
         return THROW
-    if name.endswith('destructors10linux_like8register') or name.endswith('11destructors8register') or '__cxa_thread_atexit_impl' in name:
+    if name.endswith('destructors10linux_like8register') or name.endswith('11destructors8register'):
         st.tls_dtors.append((av[0], av[1]))
         return None
+    if '__cxa_thread_atexit_impl' in name:
+        st.tls_dtors.append((av[1], av[0]))
+        return 0
     if name == 'rust_eh_personality':
         raise Unsupported("personality called")
     if name == 'memcmp' or name == 'bcmp':
